@@ -18,7 +18,7 @@ from harness import common
 from harness.translate import gen as G
 
 PROPERTY = "C03"
-LEAN_MODULES = ["SigpyVerif.Props.C03", "SigpyVerif.Props.C03Loop"]
+LEAN_MODULES = ["SigpyVerif.Props.C03", "SigpyVerif.Props.C03Loop", "SigpyVerif.Props.C03Gen"]
 THEOREMS = ["SigpyVerif.C03." + t for t in [
     "call_iff", "call_shape", "call_of_shape", "natGuard_iff_prefix", "natGuard_eq_iff",
     "compose_build_iff", "compose_order", "composeApp_append", "add_build_iff", "add_apply",
@@ -36,11 +36,20 @@ THEOREMS = ["SigpyVerif.C03." + t for t in [
     "inner_fold", "gen_loop_eq_combined", "gen_stack_build_iff", "gen_stack_indices_prefix_sums",
     "gen_stack_none_accepts_all", "gen_stack_empty", "gen_guard_agree", "zipGuard_iff", "zipGuard_eq_iff",
     "gen_apply_axis_agree",
+    # the generated `_apply` bodies / guards / Linop.apply (Gen/LinopApply.lean; Props/C03Gen.lean)
+    "gen_positive_agree", "gen_same_ishape_agree", "gen_same_oshape_agree", "gen_compose_guard_agree",
+    "gen_linopApply_eq_call", "gen_linopCall_eq_call", "gen_call_accepts_iff", "call_error", "gen_composeApply_eq",
+    "G_compose_eq", "G_compose_build_iff", "gen_addApply_sum", "sumSeq_eq_sumResults", "G_add_build_iff", "G_add_apply",
+    "bounds_get", "gen_start_eq", "gen_stop_eq", "slcG_form", "npGetItem_slcG", "npSetItem_slcG", "slabG_eq_slab",
+    "hstackStep_ok", "vstackStep_ok", "diagStep_ok", "G_hstack_build_iff", "G_hstack_block_row", "seq_rows", "seqAssemble",
+    "writeFold_concat", "G_vstack_build_iff", "G_vstack_block_col", "G_diag_build_iff", "G_diag_block_diag",
+    "compose_call", "compose_assoc", "compose_assoc_build", "G_add_app2", "add_compose_distrib", "gen_call_shape",
+    "G_build_agree",
 ]]
 
 
 def translate(ctx):
-    G.regenerate(ctx, ["StackParams"])
+    G.regenerate(ctx, ["StackParams", "LinopApply"])
 
 STACKS = ("hstack", "vstack", "diag")
 CLS = dict(compose="Compose", add="Add", sub="Sub", neg="Neg", ml="ScalarLeft", mr="ScalarRight",
@@ -492,6 +501,39 @@ def offrank_shape(rng, ish):
     return s
 
 
+def gen_offrank_stack(rng):
+    """(tree, ishape): Add / Hstack / Vstack / Diag of k equal-sized Identity/Reshape/scalar chains (every `_apply` below the
+    root is defined on inputs of any shape), to be applied to inputs of a DIFFERENT rank: exercises the too-many-indices
+    IndexError of `input[slc]`, numpy broadcasting in `output[slc] = y` and `a + b`, and the zip guards around them"""
+    k = rng.choice([2, 2, 3])
+    s = same_size_shape(rng, rng.choice([1, 2, 3, 4, 6]))
+    other = same_size_shape(rng, prod(s))
+    t = rng.choice(["add", "hstack", "vstack", "diag", "diag"])
+
+    def stacked(shape, axis):
+        if axis is None:
+            return [prod(shape) * k]
+        r = list(shape)
+        r[axis] = r[axis] * k
+        return r
+
+    def axis_of(shape):
+        return rng.choice([None] + list(range(-len(shape), len(shape))))
+
+    def opnd(o, i):
+        return gen_chain(rng, o, i, rng.choice([0, 0, 1]))
+    if t == "add":
+        return dict(t="add", args=[opnd(other, s) for _ in range(k)], ctor=True), list(s)
+    if t == "hstack":
+        ax = axis_of(s)
+        return dict(t="hstack", axis=ax, args=[opnd(other, s) for _ in range(k)]), stacked(s, ax)
+    if t == "vstack":
+        ax = axis_of(s)
+        return dict(t="vstack", axis=ax, args=[opnd(s, other) for _ in range(k)]), list(other)
+    oax, iax = axis_of(other), axis_of(s)
+    return dict(t="diag", oaxis=oax, iaxis=iax, args=[opnd(other, s) for _ in range(k)]), stacked(s, iax)
+
+
 # ---- malformed trees: one operand that does not fit ------------------------------------------
 def perturb(rng, shape, keep_axis=None, p_same=0.3):
     """a shape that differs from `shape` (other than along keep_axis)"""
@@ -813,9 +855,14 @@ def correspond(ctx):
                 "_hstack_params/_vstack_params directly (real function vs model vs the translator-generated loops, incl. "
                 "out-of-range axes), Linop._check_ishape/_check_oshape directly (incl. -1 wildcards) vs generated guards")
     ctx.assumptions += [
+        "the driver runs the TRANSLATOR-GENERATED bodies of Linop.apply / Compose / Add / Hstack / Vstack / Diag._apply and the "
+        "generated constructor guards (Gen/LinopApply.lean, Model/C03Gen.lean); hand-written and validated by this correspondence: "
+        "the numpy primitives they are written in (Model/C03Np.lean: basic slicing npGetItem incl. the too-many-indices IndexError, "
+        "slice assignment npSetItem and a + b incl. numpy broadcasting, reshape, ravel, empty) and the __init__ wiring of Model/C03Gen.lean",
         "numpy arrays are dense row-major; basic slicing/assignment as modelled by sliceAx/rowWrite (validated by correspondence)",
-        "numpy broadcasting of operands whose rank differs from the advertised one (output[slc] = y, a + b) and 0-d arrays "
-        "(numpy turns them into scalars) are not modelled: off-rank inputs are only sent through Identity/Reshape/scalar chains",
+        "0-d arrays: the generated Linop.apply accepts them (zip over an empty shape); numpy arithmetic on 0-d arrays returns SCALARS and "
+        "Linop.__call__ of a scalar builds a Compose instead of applying (translator checks that dispatch literally) - not modelled further; "
+        "off-rank inputs are sent through Identity/Reshape/scalar chains and (stream off-rank-stack) through Add/Hstack/Vstack/Diag of such chains",
         "leaf operators enter through their measured dense matrices (their own correctness is C01/C02/C09's business)",
         "inputs have the dtype of the result (complex128 when anything complex is involved): narrower input dtypes are "
         "searched separately (dtype stream)",
@@ -863,6 +910,17 @@ def correspond(ctx):
         ctx.count("offrank:guard-%s" % ("passes" if zip_guard(xs, ish) else "rejects"))
     bad, keys, unexplained = _run_stream(ctx, "off-rank", cases, exact=True)
     _oblige(ctx, "off-rank", bad, keys, unexplained)
+    # -- stream 3c: inputs of a different rank through the GENERATED stacking / sum bodies (IndexError of input[slc],
+    #    numpy broadcasting of output[slc] = y and a + b as modelled in Model/C03Np.lean)
+    cases = []
+    for i in range(n // 2):
+        tree, ish = gen_offrank_stack(rng)
+        r = rng.random()
+        xs = offrank_shape(rng, ish) if r < 0.6 else list(ish) if r < 0.8 else perturb(rng, ish)
+        cases.append((tree, xs, gen_input(rng, xs, True)))
+        ctx.count("offrank-stack:%s:%s" % (tree["t"], "shorter" if len(xs) < len(ish) else "longer" if len(xs) > len(ish) else "same-rank"))
+    bad, keys, unexplained = _run_stream(ctx, "off-rank-stack", cases, exact=True)
+    _oblige(ctx, "off-rank-stack", bad, keys, unexplained)
     # -- stream 4: the params functions directly
     _params_stream(ctx, n)
     # -- stream 5: the guard functions directly
